@@ -649,6 +649,24 @@ def b_sorted(it, x, key=None, reverse=False):
     s = it.iterable(x)
     if isinstance(s, list) and all(is_concrete(v) for v in s) and key is None:
         return sorted(s, reverse=reverse)
+    if isinstance(s, list) and len(s) <= 5 and not reverse:
+        # sorted() is stable: the result is THE permutation with non-decreasing keys in which equal keys keep their input
+        # order.  One path per permutation that is feasible (exactly one for each valuation of the keys).
+        import itertools
+
+        keys = [to_real(apply(it, key, [v], {}) if key is not None else v) for v in s]
+        n = len(s)
+        if n <= 1:
+            return list(s)
+        perms = list(itertools.permutations(range(n)))
+        c = it.chooser.choose(len(perms))
+        p = perms[c]
+        cond = conj(*[disj(keys[p[i]] < keys[p[i + 1]], conj(keys[p[i]] == keys[p[i + 1]], p[i] < p[i + 1])) for i in range(n - 1)])
+        if cond is False or (cond is not True and not it.feasible(cond)):
+            raise Infeasible()
+        if cond is not True:
+            it.pc.append(cond)
+        return [s[i] for i in p]
     raise Unsupported("sorted() on symbolic values")
 
 
@@ -1014,6 +1032,31 @@ def np_argsort(it, a):
     return np.array(p)
 
 
+def np_argmax(it, a):
+    """index of the first maximum of a concrete-length array: one path per feasible index"""
+    if isinstance(a, np.ndarray) and a.dtype != object:
+        return int(np.argmax(a))
+    n = concrete_int(it.arr_len(a))
+    if n is None or n > 6 or n == 0:
+        raise Unsupported("np.argmax on an array of symbolic length")
+    rd = it.arr_reader(a)
+    vals = [to_real(rd(i)) for i in range(n)]
+    if n == 1:
+        return 0
+    feas = []
+    for i in range(n):
+        cond = conj(*([vals[j] < vals[i] for j in range(i)] + [vals[j] <= vals[i] for j in range(i + 1, n)]))
+        if cond is True or (cond is not False and it.feasible(cond)):
+            feas.append((i, cond))
+    if not feas:
+        raise Infeasible()
+    c = it.chooser.choose(len(feas)) if len(feas) > 1 else 0
+    i, cond = feas[c]
+    if cond is not True:
+        it.pc.append(cond)
+    return i
+
+
 def np_isclose(it, a, b, rtol=1e-05, atol=1e-08, equal_nan=False):
     f = lambda x, y: b_abs(it, it.binop(ast.Sub(), x, y)) <= to_real(atol) + to_real(rtol) * to_real(b_abs(it, y))
     if is_arr(a) or is_arr(b):
@@ -1058,7 +1101,7 @@ def np_linspace(it, a, b, num=50):
 NP = {
     "zeros": np_zeros, "ones": np_ones, "empty": np_empty, "full": np_full, "zeros_like": np_zeros_like, "ones_like": np_ones_like, "array": np_array,
     "sum": np_sum, "divide": np_divide, "minimum": np_minimum, "maximum": np_maximum, "clip": np_clip, "all": np_all, "any": np_any, "cumsum": np_cumsum,
-    "prod": np_prod, "product": np_prod, "isfinite": np_isfinite, "isscalar": np_isscalar, "exp": np_exp, "argsort": np_argsort, "isclose": np_isclose,
+    "prod": np_prod, "product": np_prod, "isfinite": np_isfinite, "isscalar": np_isscalar, "exp": np_exp, "argsort": np_argsort, "argmax": np_argmax, "isclose": np_isclose,
     "less": np_less, "round": np_round, "linspace": np_linspace, "abs": lambda it, x: b_abs(it, x), "ceil": lambda it, x: to_real(b_ceil(it, x)) if is_z3(x) else float(math.ceil(x)),
 }
 
@@ -1086,6 +1129,11 @@ def sc_dcp(it, x, *a, **k):
 
 
 def arr_method(it, a, name, args, kwargs, node):
+    if isinstance(a, np.ndarray) and a.dtype != object and name == "astype" and len(args) == 1 and isinstance(args[0], BuiltinV):
+        ty = {b_bool: bool, b_int: int, b_float: float}.get(args[0].fn)
+        if ty is None:
+            raise Unsupported("astype(%r)" % (args[0],))
+        return a.astype(ty)
     if isinstance(a, np.ndarray) and a.dtype != object and all(is_concrete(x) for x in args):
         return getattr(a, name)(*args, **kwargs)
     if isinstance(a, (list, dict, set, str, tuple, frozenset)):
